@@ -99,7 +99,8 @@ Definition syncb_op (a : list val) : val :=
 
 (* ---- C17 ----
    predicate oracles: kind 0 done when len >= k; 1 never; 2 always; 3 fails (error 62) when len >= k;
-   4 (true, error 62) when len >= k (the error has priority); 5 done when the last byte equals k mod 256 *)
+   4 (true, error 62) when len >= k (the error has priority); 5 done when the last byte equals k mod 256;
+   6 done when the sum of all accumulated bytes is k mod 256 (the predicate sees the whole buffer) *)
 Definition scripted_pred (kind k : Z) : Accumulator.pred :=
   fun data =>
     let big := (k <=? zlen data)%Z in
@@ -108,7 +109,8 @@ Definition scripted_pred (kind k : Z) : Accumulator.pred :=
     else if (kind =? 2)%Z then (true, None)
     else if (kind =? 3)%Z then (false, if big then Some 62 else None)
     else if (kind =? 4)%Z then (big, if big then Some 62 else None)
-    else (match rev data with b :: _ => (Z.of_N b =? k mod 256)%Z | [] => false end, None).
+    else if (kind =? 5)%Z then (match rev data with b :: _ => (Z.of_N b =? k mod 256)%Z | [] => false end, None)
+    else ((Z.of_N (fold_left N.add data 0%N) mod 256 =? k mod 256)%Z, None).
 Fixpoint aops_of (l : list val) : option (list Accumulator.aop) :=
   match l with
   | [] => Some []
